@@ -30,14 +30,24 @@ def oracle_file(f):
                     return "route %s: shape %d differs after the round trip: %r" % (route, i, it)
         else:
             ops = rd["ops"]
+            req = rd["requested"]
             if ops[0]["count"] != n:
                 return "route %s: shape_count %r, %d written" % (route, ops[0]["count"], n)
-            for i in range(n):
-                it = ops[1 + i]["nth"]
-                if it is None or it[0] != "ok" or not P.same_modulo(exp[i][0], exp[i][1], it[1]):
-                    return "route %s: read_nth(%d) differs from the written shape: %r" % (route, i, it)
-            if ops[1 + n]["nth"] is not None or ops[2 + n]["nth"] is not None:
-                return "route %s: read_nth beyond the end returned something" % (route,)
+            for o, r in zip(req[1:], ops[1:]):
+                if o[0] == "nth":
+                    i, it = o[1], r["nth"]
+                    if i >= n:
+                        if it is not None:
+                            return "route %s: read_nth(%d) beyond the end returned something" % (route, i)
+                    elif it is None or it[0] != "ok" or not P.same_modulo(exp[i][0], exp[i][1], it[1]):
+                        return "route %s: read_nth(%d) (after %r) differs from the written shape: %r" % (route, i, req[1:], it)
+                elif o[0] == "it":
+                    items = r["items"]
+                    if not r["ended"] or len(items) != n:
+                        return "route %s: iteration after random access gave %d shapes, %d written" % (route, len(items), n)
+                    for i, it in enumerate(items):
+                        if it[0] != "ok" or not P.same_modulo(exp[i][0], exp[i][1], it[1]):
+                            return "route %s: iteration after random access: shape %d differs: %r" % (route, i, it)
     return None
 
 
